@@ -1134,12 +1134,12 @@ func scanCrossLazy(c *core.Ctx) []ob {
 			return nt != nil && nt.Obj().Name() == "SubRing"
 		}
 		type ev struct {
-			pos   token.Pos
-			recv  string
-			lazy  bool
-			dst   string
-			srcs  []string
-			call  *ast.CallExpr
+			pos  token.Pos
+			recv string
+			lazy bool
+			dst  string
+			srcs []string
+			call *ast.CallExpr
 		}
 		var evs []ev
 		ast.Inspect(fd.Body, func(x ast.Node) bool {
